@@ -321,17 +321,18 @@ LMemParts(e) ==
       domain  |-> CellAddrs(cells) = CellAddrs(limg),
       perms   |-> { <<c[1], c[3]>> : c \in cells } = { <<c[1], c[3]>> : c \in limg },
       data    |-> { c \in cells : c[1] \notin owned } = { c \in limg : c[1] \notin owned },
-      relocs  |-> \A r \in 1..Len(Relocs) : RelocOK(objs, ocells, Relocs[r])]
+      relocs  |-> \A r \in 1..Len(Relocs) : RelocOK(objs, ocells, Relocs[r]),
+      disjoint |-> ObjectsDisjoint(objs)]
 LMemoryOK(e) ==
   /\ Clean(e.res) /\ Linked
-  /\ LET p == LMemParts(e) IN p.overlap /\ p.domain /\ p.perms /\ p.data /\ p.relocs
+  /\ LET p == LMemParts(e) IN p.disjoint /\ p.overlap /\ p.domain /\ p.perms /\ p.data /\ p.relocs
 LMemoryExp(e) ==
   IF ~Clean(e.res) \/ ~Linked THEN [part |-> "outcome"]
   ELSE LET p == LMemParts(e)
            objs == Objs
            cells == TLCEval(ObsCells(e.res.ok.sections))
            bad == { r \in 1..Len(Relocs) : ~RelocOK(objs, cells, Relocs[r]) }
-       IN [part |-> IF ~p.overlap THEN "overlap" ELSE IF ~p.domain THEN "domain" ELSE IF ~p.perms THEN "perms"
+       IN [part |-> IF ~p.disjoint THEN "objects-overlap" ELSE IF ~p.overlap THEN "overlap" ELSE IF ~p.domain THEN "domain" ELSE IF ~p.perms THEN "perms"
                     ELSE IF ~p.data THEN "data" ELSE "relocs",
            badrelocs |-> [r \in bad |-> [sym |-> Relocs[r].sym, obj |-> Relocs[r].obj,
                                          got |-> RelocWord(objs, cells, Relocs[r]),
